@@ -246,6 +246,11 @@ def instances(tier, seed):
     dh = [
         ([({"0": "X"}, 0.5), ({"0": "Z"}, -0.75)], (1, 2, 3)),
         ([({"0": "Y"}, 1)], (1, 2, 3)),
+        # constant terms in every position (they contribute no circuit and no derivative factor)
+        ([({}, 2), ({"0": "X"}, 0.5), ({"0": "Z"}, -0.75)], (1, 2)),
+        ([({"0": "X"}, 0.5), ({}, 2), ({"0": "Z"}, 1)], (1, 2)),
+        ([({"0": "X"}, 0.5), ({"0": "Z"}, 1), ({}, -0.75)], (1,)),
+        ([({}, 0.5), ({}, 1), ({"0": "Y"}, 1)], (1,)),
         ([({"0": "X"}, 0.5), ({"0": "Z"}, 1), ({"0": "X"}, 0.5)], (1, 2)),
         ([({"0": "X"}, 0.5), ({"0": "Z", "1": "Z"}, -0.75)], (1, 2) if tier == "thorough" else (1,)),
         ([({"0": "Z", "1": "X"}, 0.5), ({"1": "Y"}, 1), ({"0": "X"}, -0.75)], (1, 2) if tier == "thorough" else ()),
